@@ -231,6 +231,9 @@ def run(ck, ctx):
         ck.ob("T-AGREE.markers", f"marker `{kind}` has a writer", bool(ws),
               f"writers: {sorted(set(ws))[:4]}: a marker nobody writes means entities of that kind carry another key and are lost "
               "by the regrouping", "")
+    # the entity statement forms, evaluated down to the grouped output (shared fragment with C18)
+    from ..rules.fragments import run_fragment
+    run_fragment(ck, ctx, "entities", tier=ck.tier, only_rules={"O-final"})
     ck.assumptions += ["an entity's kind is identified by its marker key, as the property's bucket list implies",
                        "entity dicts of the supported kinds carry no marker key of another kind (checked for the statement forms of "
                        "the C18 entity fragments by that check's O-value obligations)"]
